@@ -165,6 +165,42 @@ func c09one(r *core.Recorder, w *c09world, o *rig.Origin, c c09case) {
 		w.onHook["afterdo:"+key.Hex] = func() { p.P.VerifCacheDelete(key) }
 		w.hookMu.Unlock()
 		sequence = []rig.Req{{Target: target}, {Target: target}, {Target: target}} // sent concurrently below
+	case "refreshed-between-scan-and-removal":
+		// the cleanup scan collects the expired entry; before the removal loop reaches it a client request
+		// revalidates it (304 renews the expiry); requests for the key must keep being answered afterwards
+		if !prep() {
+			r.NotJudged("preparation-failed")
+			return
+		}
+		p.P.VerifCacheSetExpires(key, time.Now().Add(-time.Hour))
+		var fired atomic.Bool
+		w.hookMu.Lock()
+		w.onHook["scan:"] = func() {
+			if fired.CompareAndSwap(false, true) {
+				rig.Do(p, mode, o.Addr, rig.Req{Target: target, Timeout: 10 * time.Second})
+			}
+		}
+		w.hookMu.Unlock()
+		p.P.VerifRunCleanupCycle()
+		w.hookMu.Lock()
+		delete(w.onHook, "scan:")
+		w.hookMu.Unlock()
+		sequence = append(sequence, rig.Req{Target: target, Timeout: 10 * time.Second})
+	case "leader-hangs-up-cold", "leader-hangs-up-stale":
+		// another client's hang-up: the first of two identical requests disconnects while the origin is
+		// still preparing the answer; the second (coalesced onto the same fetch) must still get it
+		if c.Fault == "leader-hangs-up-stale" {
+			if !prep() {
+				r.NotJudged("preparation-failed")
+				return
+			}
+			p.P.VerifCacheSetExpires(key, time.Now().Add(-time.Hour))
+		}
+		w.mu.Lock()
+		w.onReq[c.ID] = func(q *http.Request) { time.Sleep(150 * time.Millisecond) }
+		w.mu.Unlock()
+		go rig.Do(p, mode, o.Addr, rig.Req{Target: target, CloseAfterSend: 60 * time.Millisecond})
+		time.Sleep(25 * time.Millisecond)
 	case "overwrite-during-read":
 		if !prep() {
 			r.NotJudged("preparation-failed")
@@ -279,6 +315,14 @@ func c09Run(b core.Batch, r *core.Recorder) {
 			}
 		}
 	}
+	verifhook.Set("janitor.scan.done", func(any) {
+		w.hookMu.Lock()
+		f := w.onHook["scan:"]
+		w.hookMu.Unlock()
+		if f != nil {
+			f()
+		}
+	})
 	verifhook.Set("proxy.serve.cached", hook("serve:"))
 	verifhook.Set("fetch.dedup.afterDo", hook("afterdo:"))
 	o := rig.StartOrigin(w.handler)
@@ -321,7 +365,7 @@ func c09Run(b core.Batch, r *core.Recorder) {
 		for _, be := range backends {
 			for _, sh := range []int{1, 3, 1024} {
 				for _, sz := range []int{1, 1024, 40000} {
-					for _, f := range []string{"vanish-during-revalidation", "vanish-before-streaming", "vanish-in-handover", "overwrite-during-read"} {
+					for _, f := range []string{"vanish-during-revalidation", "vanish-before-streaming", "vanish-in-handover", "overwrite-during-read", "leader-hangs-up-cold", "leader-hangs-up-stale", "refreshed-between-scan-and-removal"} {
 						emit(c09case{Fault: f, Backend: be, Shards: sh, Size: sz})
 					}
 				}
@@ -367,7 +411,7 @@ func init() {
 	core.Register(&core.Monitor{
 		ID:    "C09",
 		Level: "fault_enumeration",
-		Rule: "fault classes x backend x shard count {1,2,3,1024} x body size {0,1,1 KiB,40 kB}: size limit below the body size; cache full with the other entries sharing the storing key's shard; memory_budget_percent=0; empty body; entry deleted while the origin holds the conditional request (304 for a vanished entry); entry deleted between lookup and streaming (hook); entry deleted in the coalesced hand-over window (hook, 3 concurrent clients); entry overwritten between lookup and streaming; " +
+		Rule: "fault classes x backend x shard count {1,2,3,1024} x body size {0,1,1 KiB,40 kB}: size limit below the body size; cache full with the other entries sharing the storing key's shard; memory_budget_percent=0; empty body; entry deleted while the origin holds the conditional request (304 for a vanished entry); entry deleted between lookup and streaming (hook); entry deleted in the coalesced hand-over window (hook, 3 concurrent clients); entry overwritten between lookup and streaming; the entry is revalidated between the cleanup scan and its removal loop (hook); the first of two coalesced clients hangs up while the origin prepares the answer (cold and stale key); " +
 			"file backend: cache directory replaced by a file / removed / read-only, and RLIMIT_FSIZE = n for n swept over the body length (the cache file write fails after exactly n bytes). The origin is healthy in every case; each client response must be 200 with the complete body. Non-trivial = distinct (fault, backend, shards, size, n, transport).",
 		Assumptions: []string{"RLIMIT_FSIZE is process-wide: it is lowered only for the duration of the faulted request; Go ignores SIGXFSZ so the write returns EFBIG", "cases where the origin itself answered with an error are not judged"},
 		Plan:        c09Plan,
